@@ -223,6 +223,14 @@ func readUnifiedChunk(r *diffReader) error {
 		return fmt.Errorf("line %d: right span: %w", r.ln, err)
 	}
 
+	// An explicitly empty range ("N,0") names the line before the range, so
+	// the range itself begins on the next line.
+	if lhi == 0 && strings.Contains(parts[1], ",") {
+		llo++
+	}
+	if rhi == 0 && strings.Contains(parts[2], ",") {
+		rlo++
+	}
 	ch := &Chunk{LStart: llo, LEnd: llo + lhi, RStart: rlo, REnd: rlo + rhi}
 	add := func(op slice.EditOp, text string) {
 		if len(ch.Edits) == 0 || ch.Edits[len(ch.Edits)-1].Op != op {
